@@ -11,3 +11,10 @@ Attrs: TypeAlias = JSONDict
 
 def text_length(text: str) -> int:
     return len(text.encode("utf-16-le")) // 2
+
+
+def slice_utf16(text: str, from_: int, to: int | None = None) -> str:
+    """Slice a string by UTF-16 code unit offsets (document positions)."""
+    units = text.encode("utf-16-le", "surrogatepass")
+    end = None if to is None else 2 * max(to, 0)
+    return units[2 * max(from_, 0) : end].decode("utf-16-le", "surrogatepass")
